@@ -341,7 +341,10 @@ class SeqRun(seq_hooks.HooksMixin, object):
         for mid, h in list(self.handles.items()):
             mo = self.view.objs.get(mid)
             if mo is not None and mo.pk is None and h._pkval_ is not None:
-                mo.pk = tuple(h._get_raw_pkval_())
+                raw = tuple(h._get_raw_pkval_())
+                if any(x is None for x in raw):
+                    continue        # a key made of a reference to an object that has no key yet
+                mo.pk = raw
                 for a, v in zip(self.schema.by_name[mo.ent].pk_attrs, mo.pk):
                     if not a.is_rel:
                         mo.vals[a.name] = v
